@@ -211,6 +211,26 @@ func main() {
 			}
 		}
 		r.Count("sequential_histories", r.Evals)
+		// every level except 10 (the separator byte), held and released: whatever byte a level is stored as must not
+		// collide with the separator
+		{
+			before := r.Evals
+			for l := -128; l <= 127; l++ {
+				if l == 10 {
+					continue
+				}
+				hidx++
+				if hidx%int64(nshards) != int64(shard) {
+					continue
+				}
+				lv := zerolog.Level(l)
+				for _, pair := range [][2]zerolog.Level{{127, 127}, {126, 127}} {
+					runHistory(r, pair[0], pair[1], false, []op{{"w", lv}, {"w", lv}, {"trigger", 0}, {"w", lv}, {"close", 0}})
+					runHistory(r, pair[0], pair[1], true, []op{{"w", lv}, {"w", 0}, {"w", lv}, {"trigger", 0}})
+				}
+			}
+			r.Count("level_sweep_histories", r.Evals-before)
+		}
 		// unusual line contents: a line ending in CR LF, a lone CR inside, a 70000-byte line (beyond any 64 KiB
 		// scanner or pooling limit), an empty line - all histories of 4 operations for three level pairs
 		{
